@@ -159,7 +159,7 @@ def position_pool(ctx, quick, randoms):
     fens += [chessgen.motif_promo(r) for _ in range(40 if quick else 500)]
     # six or more queens of one colour overflow MatId (known defect of property C02, material.hpp) and would abort
     # the sanitizer build inside readFEN before the book is ever looked at
-    fens = [f for f in dict.fromkeys(fens) if f.split()[0].count("Q") < 6 and f.split()[0].count("q") < 6]
+    fens = list(dict.fromkeys(fens))      # (positions with >= 6 queens were excluded until C02's MatId overflow was repaired)
     lines = []
     for f in fens:
         lines += [f"chess legal {f}", f"pgbook key {f}"]
